@@ -49,6 +49,15 @@
          out with discharge=False is how armi's converters re-insert assemblies).
      R5  Add without any locator ("generic location at the centre", Core.add docstring) and a bare moveTo to an empty
          cell are outside the operation alphabet of the statement.
+
+   Where armi (pinned tree) leaves this reference -- each reproduced against the real code, see props/c14.py:
+     D1 (R3)  Core.add to a filled location appends the child (and renumbers a fresh one) before the check raises;
+              the error message lookup itself raises KeyError: extra child, absent from all three lookup tables.
+     D2 (R1)  tracked DischargeSwap of a fresh assembly with stationary blocks: the fresh assembly's stationary
+              block travels to the pool inside the outgoing assembly and is in no lookup table.
+     D3 (R2)  Core.add renumbers the incoming assembly after the stationary exchange, renaming the block it has
+              just received; the old name stays in blocksByName and, once that assembly is purged, returns a
+              purged block.
 *)
 EXTENDS Integers, Sequences, FiniteSets, TLC, Json, SequencesExt, FiniteSetsExt
 
